@@ -86,6 +86,9 @@ def gen_plan(seed, tier):
     p_bad_index = r.choice([0, 0, 0.03, 0.1])
     p_valueof_fail = r.choice([0, 0, 0.03, 0.1])
     live = {}      # id -> number of bins
+    cont = {}      # id -> list of lists of items (the generator's own picture of the contents; only used to keep
+    #                histories small: repeated combine_bins can double the length of a bin with every operation)
+    vof = (lambda x: x) if values is None else values.__getitem__
     ops = []
     next_id = 0
 
@@ -112,6 +115,7 @@ def gen_plan(seed, tier):
             i = fresh()
             n = r.choice([0, 1, 1, 2, 2, 3, 3, 4, 5])
             live[i] = n
+            cont[i] = [[] for _ in range(n)]
             ops.append({"op": "new", "n": n, "out": i})
         elif kind == "add":
             a = r.choice(ids)
@@ -123,6 +127,7 @@ def gen_plan(seed, tier):
                 op["fault"] = "badindex"
             else:
                 op["idx"] = r.randint(-nb, nb - 1)
+                cont[a][op["idx"]].append(item)          # (a valueof fault may prevent it: the picture is an upper bound)
                 if r.random() < 0.25:
                     op["idx_np"] = True          # the index is a numpy integer (what np.argmin / np.argmax hand to the algorithms)
                 if r.random() < p_valueof_fail:
@@ -133,25 +138,37 @@ def gen_plan(seed, tier):
             a = r.choice(ids)
             i = fresh()
             live[i] = live[a]
+            cont[i] = [list(b) for b in cont[a]]
             ops.append({"op": "copy", "arr": a, "out": i})
         elif kind == "sort":
-            ops.append({"op": "sort", "arr": r.choice(ids)})
+            a = r.choice(ids)
+            cont[a].sort(key=lambda b: sum(vof(x) for x in b))
+            ops.append({"op": "sort", "arr": a})
         elif kind == "addempty":
             a = r.choice(ids)
             n = r.choice([0, 1, 1, 1, 2, 3])
             i = fresh()
             live[i] = live.pop(a) + n
+            cont[i] = cont.pop(a) + [[] for _ in range(n)]
             ops.append({"op": "addempty", "arr": a, "n": n, "out": i})
         elif kind == "remove":
             a = r.choice(ids)
             n = r.randint(0, live[a]) if r.random() < 0.3 else min(live[a], r.choice([0, 1, 1, 1, 2]))
             i = fresh()
             live[i] = live.pop(a) - n
+            old = cont.pop(a)
+            cont[i] = old[:len(old) - n]
             ops.append({"op": "remove", "arr": a, "n": n, "out": i})
         elif kind == "concat":
             a, b = r.sample(ids, 2)
+            if live[a] + live[b] > 48:
+                # copy + concatenate doubles the number of bins: keep arrays small (the hang this prevents was seen
+                # in the thorough tier: 46 concatenations and 29 copies in one history)
+                ops.append({"op": "read", "arr": a})
+                continue
             i = fresh()
             live[i] = live.pop(a) + live.pop(b)
+            cont[i] = cont.pop(a) + cont.pop(b)
             ops.append({"op": "concat", "a": a, "b": b, "out": i})
         elif kind == "combine":
             a, b = r.sample(ids, 2)
@@ -164,8 +181,13 @@ def gen_plan(seed, tier):
                 ops.append(op)
             else:
                 # python / numpy indexing: negative indices are legal for the target bin and for the source bin
-                ops.append({"op": "combine", "a": a, "i": r.randint(-live[a], live[a] - 1) if r.random() < 0.3 else r.randrange(live[a]),
-                            "b": b, "j": r.randint(-live[b], live[b] - 1) if r.random() < 0.3 else r.randrange(live[b])})
+                ci = r.randint(-live[a], live[a] - 1) if r.random() < 0.3 else r.randrange(live[a])
+                cj = r.randint(-live[b], live[b] - 1) if r.random() < 0.3 else r.randrange(live[b])
+                if len(cont[a][ci]) + len(cont[b][cj]) > 120:
+                    ops.append({"op": "read", "arr": a})          # keep bins small (see `cont` above)
+                else:
+                    cont[a][ci] = cont[a][ci] + cont[b][cj]
+                    ops.append({"op": "combine", "a": a, "i": ci, "b": b, "j": cj})
         else:
             ops.append({"op": "read", "arr": r.choice(ids)})
     return {"prop": "C16", "manager": manager, "values": values, "ops": ops}
